@@ -36,15 +36,15 @@ const (
 	tColonColon
 	tLiteral
 	tNumber
-	tOperator  // text holds the operator
-	tStar      // name test *
-	tNSAny     // prefix:*
-	tLocalAny  // *:local
-	tQName     // prefix:local or local (prefix may be empty)
-	tNodeType  // comment text processing-instruction node (followed by '(')
-	tFuncName  // QName followed by '('
-	tAxisName  // NCName followed by '::'
-	tVariable  // $qname
+	tOperator // text holds the operator
+	tStar     // name test *
+	tNSAny    // prefix:*
+	tLocalAny // *:local
+	tQName    // prefix:local or local (prefix may be empty)
+	tNodeType // comment text processing-instruction node (followed by '(')
+	tFuncName // QName followed by '('
+	tAxisName // NCName followed by '::'
+	tVariable // $qname
 )
 
 type token struct {
